@@ -8,7 +8,7 @@ spec["rec_ext"] may declare (see srcspecs_rec.py for the TRUSTED readings each o
                strings are values of the spec type `type`; f"..{e}.." is the concatenation (cat) of its literal
                pieces (each must be in lits) and of the text of its values; sep.join(xs) = join lits[sep] xs;
                str(n) / map(str, ns) for ints
-   kwdicts     type -> dict(mk=constructor, fields=[(key, projection, type O:T)])
+   kwdicts     type -> dict(mk=constructor, fields=[(key, projection, type O:T)], set="setter name with {key}")
                a dict with known string keys, each present or not: d.get("k") = projection (an option),
                d.get("k", default), {"k": e, ..} = constructor, d["k"] = e = the record with that field Some e
    isinstance  {(type, class text): True | False}     isinstance(x, C) for x of that type (lists: "list" is built in)
@@ -17,6 +17,7 @@ spec["rec_ext"] may declare (see srcspecs_rec.py for the TRUSTED readings each o
    opt_if      generic Optional values (types "O:T"): `if x is None` / `if x is not None` on a plain name becomes a
                match that rebinds the name at the underlying type
    fragment    see fragment_function()
+   imports     [(module, name)]: the module binds `name` by `from module import name` and by nothing else
 """
 from __future__ import annotations
 
@@ -397,6 +398,8 @@ def misc_exprs(tr, e, env, want):
             val = vt                     # an Optional value: a key bound to None reads like an absent key
         else:
             val = f"(Some {tr.coerce(vt, vty, opt_inner(fty), ast.unparse(v), v, env)})"
+        if K[dty].get("set"):
+            return f"({K[dty]['set'].format(key=key.value)} {dt} {val})", dty       # the model's field update
         comps = [(val if k == key.value else f"({pj} {dt})") for k, pj, _t in K[dty]["fields"]]
         return f"({K[dty]['mk']} {' '.join(comps)})", dty
     return None
@@ -762,9 +765,35 @@ def seq_function(tr, fdef):
     return ast.fix_missing_locations(new)
 
 
+def check_imports(tr, wanted):
+    """the module binds each name by `from MODULE import NAME` (no alias) and by nothing else at module level"""
+    mod = getattr(tr, "module", None)
+    if mod is None:
+        raise Unsupported("module source not available")
+    for module, name in wanted:
+        ok = False
+        for n in mod.body:
+            if isinstance(n, ast.ImportFrom) and n.module == module and n.level == 0 and \
+                    any(a.name == name and a.asname is None for a in n.names):
+                ok = True
+            elif isinstance(n, (ast.Import, ast.ImportFrom)):
+                if any((a.asname or a.name.split(".")[0]) == name for a in n.names):
+                    raise Unsupported(f"the module binds {name} by another import")
+            elif isinstance(n, (ast.FunctionDef, ast.ClassDef, ast.AsyncFunctionDef)) and n.name == name:
+                raise Unsupported(f"the module defines {name}")
+            elif isinstance(n, (ast.Assign, ast.AnnAssign, ast.AugAssign)):
+                tg = n.targets if isinstance(n, ast.Assign) else [n.target]
+                if any(isinstance(x, ast.Name) and x.id == name for t in tg for x in ast.walk(t)):
+                    raise Unsupported(f"the module assigns {name}")
+        if not ok:
+            raise Unsupported(f"the module does not say `from {module} import {name}`")
+
+
 def func_hook(tr, fdef):
     if not ext(tr):
         return fdef
+    if ext(tr).get("imports"):
+        check_imports(tr, ext(tr)["imports"])
     if ext(tr).get("fragment"):
         return fragment_function(tr, fdef)
     if ext(tr).get("seq"):
